@@ -16,6 +16,17 @@ CHECKS = {
         "template path; resource files in the copy path use LF/CRLF terminators only (lone CR is outside the stated domain).",
         "DESIGN.md §4 C15",
     ),
+    "C13": (
+        "Hypothesis generated source documents / YAML files / builder and CLI overrides vs reference merge + path-precedence rule; stateful builder histories",
+        "Generated-input exploration at four levels: deep_update and LanguageConfig.update on arbitrary nested maps with "
+        "DefaultValue leaves (reference merge, independent last-explicit-else-last-default path rule, source documents "
+        "compared with their snapshots); LanguageContextBuilder with 0..3 YAML files and explicit/default overrides over the "
+        "real c/cpp/py options observed through get_option(s)/get_config_value*/a probe template; nnvg --list-configuration "
+        "in-process and in a subprocess; Hypothesis rule-based machine over builder histories (earlier contexts unchanged).",
+        "Built-in defaults read independently from properties.yaml; history invariant across distinct builders; invalid "
+        "C++ option groups (documented ValueError) are not generated; python forces enable_serialization_asserts (documented in lang/py).",
+        "DESIGN.md §4 C13",
+    ),
 }
 
 NOT_YET = {}
